@@ -8,6 +8,7 @@ CONSTANTS
   WithClear = FALSE
   FixJoin = FALSE
   FixGrow = FALSE
+  FixStart = FALSE
 INVARIANT ExactlyOnce
 INVARIANT MaxRunning
 INVARIANT MaxServing
